@@ -6,6 +6,7 @@ the real crate and diffs the two response streams.
 import Driver.Codec
 import EvalexprVerif.Spec.RefArith
 import Driver.Gen
+import EvalexprVerif.Spec.IdentsSeq
 import EvalexprVerif.Spec.RefBuiltin
 import EvalexprVerif.Spec.BigStep
 import EvalexprVerif.Spec.Idents
@@ -243,6 +244,12 @@ def handle (sess : Session) (line : String) : Session × String :=
     let (src, _) := Gen.renderTokens (Spec.render e) r
     let cls : IdentClass → String := fun c => match c with | .write => "w" | .read => "r" | .function => "f"
     (sess, s!"x{hexOfStr src} {",".intercalate ((Spec.occ e).map fun (c, x) => cls c ++ ":" ++ hexOfStr x)}")
+  | ["gen.c14l", seed, depth] =>
+    -- C14 over the domain of C05: a sequence level (absent elements, empty groups) and its occurrence list
+    let (l, r) := Gen.genOperand.genLevel ⟨seed.toNat!⟩ depth.toNat!
+    let (src, _) := Gen.renderTokens (Spec.renderLevel l) r
+    let cls : IdentClass → String := fun c => match c with | .write => "w" | .read => "r" | .function => "f"
+    (sess, s!"x{hexOfStr src} {",".intercalate ((Spec.occLevel l).map fun (c, x) => cls c ++ ":" ++ hexOfStr x)}")
   | ["evalrename", slot, suffix, src] =>
     -- C14: rename the variables of the tree through the mutable iterator, then evaluate
     match sess.get slot.toNat!, buildOperatorTree (hexArg src) with
@@ -252,6 +259,10 @@ def handle (sess : Session) (line : String) : Session × String :=
       (sess.set slot.toNat! s1.ctx, encRes encValue r ++ " ; " ++ encLog s1.log)
     | some _, .error e => (sess, "err " ++ encErr e ++ " ; ")
     | none, _ => (sess, "bad-op")
+  | ["gen.c07tight", idx] =>
+    let (a, b, ts) := Gen.tightSignCase idx.toNat!
+    (sess, s!"x{hexOfStr a} x{hexOfStr b} {Gen.encTokens ts}")
+  | ["gen.poolsize"] => (sess, toString Gen.tokenPool.size)
   | ["gen.c07sys", idx, len] =>
     -- the idx-th token sequence of length len over the token pool, two gap assignments
     let n := Gen.tokenPool.size
